@@ -209,6 +209,71 @@ def fail_before_write(viol):
     return n
 
 
+def fail_with_output_path(viol):
+    """-o / output path: a run that fails (missing or undecodable input, raising formatter) creates no file, no directory and
+    touches no existing output; a second in-place run keeps a usable backup of what it replaces"""
+    import flowmark.reformat_api as api
+    n = 0
+    for failure in ("missing", "undecodable", "formatter-raises"):
+        for existing in (False, True):
+            d = scratch_dir("vf-c14-")
+            try:
+                src = os.path.join(d, "in.md")
+                if failure == "undecodable":
+                    open(src, "wb").write(b"caf\xe9 \xff\xfe bad utf8\n")
+                elif failure == "formatter-raises":
+                    open(src, "w").write(OPTION_DOC)
+                out = os.path.join(d, "new", "deep", "out.md") if not existing else os.path.join(d, "out.md")
+                if existing:
+                    open(out, "w").write("old output\n")
+                    os.utime(out, (1, 1))
+                orig = api.reformat_text
+                if failure == "formatter-raises":
+                    def boom(*a, **kw):
+                        raise RuntimeError("injected formatter failure")
+                    api.reformat_text = boom
+                before = {os.path.relpath(os.path.join(dp, f), d): (open(os.path.join(dp, f), "rb").read(), os.path.getmtime(os.path.join(dp, f)))
+                          for dp, dn, fn in os.walk(d) for f in fn}
+                dirs_before = sorted(os.path.relpath(os.path.join(dp, x), d) for dp, dn, fn in os.walk(d) for x in dn)
+                try:
+                    with captured():
+                        try:
+                            api.reformat_file(src, out, width=40, make_parents=True)
+                            rc = 0
+                        except BaseException as e:
+                            rc = "exc:" + type(e).__name__
+                finally:
+                    api.reformat_text = orig
+                after = {os.path.relpath(os.path.join(dp, f), d): (open(os.path.join(dp, f), "rb").read(), os.path.getmtime(os.path.join(dp, f)))
+                         for dp, dn, fn in os.walk(d) for f in fn}
+                dirs_after = sorted(os.path.relpath(os.path.join(dp, x), d) for dp, dn, fn in os.walk(d) for x in dn)
+                n += 1
+                if rc == 0 or after != before or dirs_after != dirs_before:
+                    viol.append({"clause": "failure_modifies_nothing", "input": {"failure": failure, "output_exists": existing, "output": os.path.relpath(out, d)},
+                                 "got": {"rc": str(rc), "files": sorted(set(after) ^ set(before)) or [k for k in after if after[k] != before.get(k)],
+                                         "dirs": [x for x in dirs_after if x not in dirs_before]}})
+            finally:
+                shutil.rmtree(d, ignore_errors=True)
+    # format, edit, format again in place: after the second run the text it replaced is still recoverable
+    d = scratch_dir("vf-c14-")
+    try:
+        f = os.path.join(d, "doc.md")
+        open(f, "w").write(OPTION_DOC)
+        with captured():
+            api.reformat_file(f, None, inplace=True, width=40)
+        edited = open(f).read() + "\nA hand-written paragraph   added   after the first run.\n"
+        open(f, "w").write(edited)
+        with captured():
+            api.reformat_file(f, None, inplace=True, width=40)
+        n += 1
+        if not os.path.exists(f + ".orig") or open(f + ".orig").read() != edited:
+            viol.append({"clause": "backup_holds_replaced_text", "input": {"scenario": "format, edit, format again (backups on)"},
+                         "got": open(f + ".orig").read()[:120] if os.path.exists(f + ".orig") else None, "want": edited[:120]})
+    finally:
+        shutil.rmtree(d, ignore_errors=True)
+    return n
+
+
 def bounded(tier, seed):
     from flowmark.reformat_api import reformat_text
     kinds = ["inplace", "inplace-nobackup", "two-files", "auto"]
@@ -264,8 +329,11 @@ def bounded(tier, seed):
                 finally:
                     shutil.rmtree(d, ignore_errors=True)
     evals += fail_before_write(violations)
+    evals += fail_with_output_path(violations)
     return {"evaluations": evals, "distinct_nontrivial": len(distinct), "violations": violations, "samples": samples,
-            "rule": "(also: undecodable input / raising formatter in a 3-file run leave the failing and later files untouched) "
+            "rule": "(also: undecodable input / raising formatter in a 3-file run leave the failing and later files untouched; a failing run "
+                    "with an explicit output path creates no file or directory and touches no existing output; the backup of a second "
+                    "in-place run holds the text it replaced) "
                     "for each scenario {inplace+backup, inplace, two files, --auto} and each k in 1..#fs-calls: raise OSError "
                     "at the k-th file-system call (fault) or os._exit the forked process there (crash); then every target must "
                     "hold the complete old or new text (or be recoverable from .orig). distinct = distinct (scenario, mode, "
